@@ -91,6 +91,14 @@ def write_coqproject():
 def coq_make(targets, timeout=1500):
     """make the given .vo targets (full .vo build, never -vos); returns (ok, log)"""
     write_coqproject()
+    # the dependency file of coq_makefile goes stale when a file starts importing another one: rebuild it whenever a source
+    # is newer than it
+    dep = os.path.join(COQ, ".Makefile.d")
+    try:
+        if os.path.exists(dep) and any(os.path.getmtime(os.path.join(COQ, f)) > os.path.getmtime(dep) for f in coq_files()):
+            os.remove(dep)
+    except OSError:
+        pass
     rc, out = run(["timeout", str(timeout), "make", "-k", "-j", NPROC] + targets, cwd=COQ, timeout=timeout + 30)
     return rc == 0, out
 
